@@ -766,6 +766,9 @@ func (e *c08Env) txStep() {
 			if forced != "" {
 				assetID = pool.Main
 			}
+			if forced == "same-pool-round" {
+				x = big.NewInt(int64(1+e.rnd.Intn(9)) * 1_000_000_000)
+			}
 			if forced == "emode" {
 				if ep, ok := e.pair(e.u.EModePair); ok {
 					poolID, assetID = ep.AssetOutPoolID, ep.AssetIn
@@ -785,7 +788,7 @@ func (e *c08Env) txStep() {
 		if forced != "" {
 			var ip []uint64
 			for _, id := range pairIDs {
-				if p, ok := e.pair(id); ok && ((p.IsInterPool && forced != "same-pool" && forced != "emode") || (forced == "same-pool" && !p.IsInterPool && !p.IsEModeEnabled) || (forced == "emode" && p.IsEModeEnabled)) {
+				if p, ok := e.pair(id); ok && ((p.IsInterPool && forced != "same-pool" && forced != "same-pool-round" && forced != "emode") || ((forced == "same-pool" || forced == "same-pool-round") && !p.IsInterPool && !p.IsEModeEnabled) || (forced == "emode" && p.IsEModeEnabled)) {
 					ip = append(ip, id)
 				}
 			}
@@ -845,6 +848,9 @@ func (e *c08Env) txStep() {
 		loan, lcls := e.loanClass(max, c08bi(poolBal))
 		if forced != "" {
 			loan, lcls = new(big.Int).Quo(new(big.Int).Mul(max, big.NewInt(int64(930+e.rnd.Intn(71)))), big.NewInt(1000)), "typical"
+		}
+		if forced == "same-pool-round" && loan.Cmp(big.NewInt(2_000_000)) > 0 {
+			loan.Quo(loan, big.NewInt(1_000_000)).Mul(loan, big.NewInt(1_000_000)) // a round amount
 		}
 		path := op + "-new"
 		if existing != nil {
